@@ -87,11 +87,15 @@ def all_paths(
     else:
         result = set(paths)
     # Symlinks are never covered files, and their target may lie outside of
-    # the project.
+    # the project. The same goes for a .license file that is a symlink.
     return [
-        _determine_license_path(path)
-        for path in result
-        if path.is_file() and not path.is_symlink()
+        license_path
+        for license_path in (
+            _determine_license_path(path)
+            for path in result
+            if path.is_file() and not path.is_symlink()
+        )
+        if not license_path.is_symlink()
     ]
 
 
